@@ -516,10 +516,13 @@ def shrink(session, still_differs, budget_s=30):
 PROBE_PY = os.path.join(VERIF, "harness", "c11_probe.py")
 
 
-def run_probe(vseed, hashseed, names=()):
+PROBE_ROUNDS = {"quick": 40, "thorough": 96}
+
+
+def run_probe(vseed, hashseed, names=(), rounds=40):
     env = dict(os.environ, PYTHONPATH=REPO, PYTHONHASHSEED=str(hashseed), PYTHONDONTWRITEBYTECODE="1")
     try:
-        p = subprocess.run([PY, PROBE_PY, str(vseed)] + list(names), capture_output=True, text=True, env=env, timeout=240)
+        p = subprocess.run([PY, PROBE_PY, str(vseed), str(rounds)] + list(names), capture_output=True, text=True, env=env, timeout=240)
     except subprocess.TimeoutExpired:
         return {"error": "timeout"}
     if p.returncode != 0:
@@ -533,14 +536,34 @@ def run_probe(vseed, hashseed, names=()):
 def hashseed_probe(ck, seeds):
     """Directed programs (harness/c11_probe.py), each child interpreter under another PYTHONHASHSEED; byte identity."""
     vseed = ck.seed
+    rounds = PROBE_ROUNDS[ck.tier]
     with concurrent.futures.ThreadPoolExecutor(max_workers=NPROC) as ex:
-        outs = list(ex.map(lambda hs: run_probe(vseed, hs), seeds))
+        outs = list(ex.map(lambda hs: run_probe(vseed, hs, rounds=rounds), seeds))
     base = outs[0]
     found = []
     if "error" in base:
         ck.violation("hash-seed probe could not run: " + base["error"], {"kind": "probe-error", "error": base["error"]}, no_failing_input=True)
         return found, 0
     n = 0
+    # within one interpreter: the same object compiled again, the same source rebuilt with unrelated allocations in between
+    for hs, o in zip(seeds, outs):
+        if "error" in o:
+            continue
+        for name, v in o.items():
+            extra = v[2] if len(v) > 2 else {}
+            if extra.get("recompile_differs") and not any(f["program"] == name for f in found):
+                d = extra["recompile_differs"]
+                found.append({"kind": "recompile-differs", "program": name, "variant_seed": vseed, "hashseed": hs, "rounds": rounds,
+                              "what_differs": "compilation #%d and #%d of the SAME object at %s" % (d["attempt_first"], d["attempt_later"], d["config"]),
+                              "first": d["first"], "later": d["later"], "sequence": d["sequence"]})
+            if extra.get("variants", 1) > 1 and not any(f["program"] == name for f in found):
+                found.append({"kind": "rebuild-differs", "program": name, "variant_seed": vseed, "hashseed": hs, "rounds": rounds,
+                              "what_differs": "the same source built %d times in one process with unrelated allocations in between gave %d different TEAL texts (builds %s)" % (
+                                  rounds, extra["variants"], extra.get("rounds")),
+                              "first": [v[0], v[1]], "later": extra.get("other")})
+            if extra:
+                n += 1
+                ck.count(("probe-inprocess", name, hs))
     for hs, o in zip(seeds[1:], outs[1:]):
         if "error" in o:
             ck.violation("hash-seed probe could not run under PYTHONHASHSEED=%s: %s" % (hs, o["error"]), {"kind": "probe-error", "error": o["error"]}, no_failing_input=True)
@@ -548,9 +571,9 @@ def hashseed_probe(ck, seeds):
         for name in base:
             n += 1
             ck.count(("probe", name, hs))
-            if o.get(name) != base[name] and not any(f["program"] == name for f in found):
+            if (o.get(name) or [None, None])[:2] != base[name][:2] and not any(f["program"] == name for f in found):
                 found.append({"kind": "hashseed-differs", "program": name, "variant_seed": vseed, "hashseed_a": seeds[0], "hashseed_b": hs,
-                              "teal_a": base[name], "teal_b": o.get(name)})
+                              "teal_a": base[name][:2], "teal_b": (o.get(name) or [None, None])[:2]})
     return found, n
 
 
@@ -643,6 +666,15 @@ def search_witness(breaks, limit=6):
 
 def replay(path):
     rp = json.load(open(path))
+    if rp.get("kind") in ("recompile-differs", "rebuild-differs"):
+        o = run_probe(rp["variant_seed"], rp["hashseed"], [rp["program"]], rounds=rp.get("rounds", 40))
+        v = o.get(rp["program"]) or ["?", "", {}]
+        extra = v[2] if len(v) > 2 else {}
+        print(rp["program"], "under PYTHONHASHSEED=%s:" % rp["hashseed"], {k: (x if k != "other" else "...") for k, x in extra.items()} or "no difference any more")
+        if extra.get("recompile_differs") or extra.get("variants", 1) > 1:
+            print("VIOLATION property=C11 replay=%s" % path)
+            return 1
+        return 0
     if rp.get("kind") == "hashseed-differs":
         a = run_probe(rp["variant_seed"], rp["hashseed_a"], [rp["program"]])
         b = run_probe(rp["variant_seed"], rp["hashseed_b"], [rp["program"]])
@@ -724,9 +756,13 @@ def main(argv):
     probe_seeds = [0, 1, 2, 3, 7, rng.randrange(8, 2**32 - 1)] + ([5, 11, 42, rng.randrange(8, 2**32 - 1), rng.randrange(8, 2**32 - 1)] if thorough else [])
     probe_found, probe_n = hashseed_probe(ck, probe_seeds)
     ck.coverage["hashseed_probe"] = {"hash_seeds": probe_seeds, "comparisons": probe_n, "differences": len(probe_found)}
-    for f in probe_found[:3]:
-        ck.violation("program %s (harness/c11_probe.py, variant %d) compiles to different TEAL under PYTHONHASHSEED=%s and %s" % (
-            f["program"], f["variant_seed"], f["hashseed_a"], f["hashseed_b"]), f)
+    for f in probe_found[:4]:
+        if f["kind"] == "hashseed-differs":
+            ck.violation("program %s (harness/c11_probe.py, variant %d) compiles to different TEAL under PYTHONHASHSEED=%s and %s" % (
+                f["program"], f["variant_seed"], f["hashseed_a"], f["hashseed_b"]), f)
+        else:
+            ck.violation("program %s (harness/c11_probe.py, variant %d, PYTHONHASHSEED=%s): %s" % (
+                f["program"], f["variant_seed"], f["hashseed"], f["what_differs"]), f)
 
     t_phase["hashseed_probe"] = round(time.time() - _t, 1)
     _t = time.time()
